@@ -1695,3 +1695,55 @@ def rf114(run):
                            'value of the next iteration (two phis that exchange their values get the same value)' if want else
                            'the renaming shortcut is lost for ordinary code'), line=ifs[0]['l'])
     return n
+
+
+# ---------------------------------------------------------------------------------------------
+# RF131: order of a spill and a restore that hand one hard register over at the same place
+# ---------------------------------------------------------------------------------------------
+
+def rf131(run):
+    from lib import printexec as PE
+    rule = 'RF131'
+    run.rule(rule, 'live-range splitting (-O2/-O3): when a hard register goes from pseudo X to pseudo Y at one place, X must be stored '
+                   'before Y is loaded.  split() places the sorted elements by inserting each one at the head of a block start (reverse '
+                   'list order) and before the final branch / at the tail otherwise (list order), so the comparator spill_el_cmp, '
+                   'evaluated for a spill and a restore of different registers at the same place, puts the *restore* first at a block '
+                   'start and the *spill* first at a block end and on an edge (decision table confirmed on the reference tree)')
+    gen = run.tu('gen')
+    f = gen.func('spill_el_cmp')
+    run.functions_analysed.add(('gen', f.name))
+    # the placement code this table is tied to
+    sp = [g for g in gen.func_list if g.body is not None and any(y['k'] == 'CallExpr' and y.get('callee') == 'spill_restore_reg' for y in g.walk())
+          and any(y['k'] == 'MemberExpr' and y['n'] == 'bb_end_p' for y in g.walk())]
+    if not sp:
+        raise F.AnalysisBroken('RF131: the placement of spill elements (spill_restore_reg under bb_end_p) was not found')
+    for g in sp:
+        run.functions_analysed.add(('gen', g.name))
+    n = 0
+    for place, edge_p, bb_end_p, first in (('block start', 0, 0, 'restore'), ('block end', 0, 1, 'spill'), ('edge', 1, 0, 'spill')):
+        res = {}
+        for a_spill in (1, 0):
+            env = {'e1->edge_p': edge_p, 'e2->edge_p': edge_p, 'e1->bb_end_p': bb_end_p, 'e2->bb_end_p': bb_end_p,
+                   'e1->u.e': 7, 'e2->u.e': 7, 'e1->u.bb': 8, 'e2->u.bb': 8, 'e1->u.bb->index': 3, 'e2->u.bb->index': 3,
+                   'e1->spill_p': a_spill, 'e2->spill_p': 1 - a_spill, 'e1->reg': 40, 'e2->reg': 41}
+            ex = PE.PrintExec(gen, {}, {}, {})
+            ex.retval = 'none'
+            try:
+                ex.run(f.body, env)
+            except F.AnalysisBroken as e_:
+                raise F.AnalysisBroken('spill_el_cmp not executable: %s' % e_)
+            if not isinstance(ex.retval, int):
+                raise F.AnalysisBroken('spill_el_cmp: no result for the %s case' % place)
+            res[a_spill] = ex.retval
+        # res[1]: e1 is the spill, e2 the restore
+        spill_first = res[1] < 0 and res[0] > 0
+        restore_first = res[1] > 0 and res[0] < 0
+        ok = restore_first if first == 'restore' else spill_first
+        n += 1
+        run.ob(rule, (place,), ok, {'place': place, 'cmp (spill, restore)': res[1], 'cmp (restore, spill)': res[0], 'sorted first': first})
+        if not ok:
+            run.violation(rule, f, 'spill / restore order at a %s' % place, 'for a spill and a restore at the same %s spill_el_cmp gives %d / %d: the '
+                          '%s is not sorted first, so after split() has placed the elements the restore of Y executes before the store of X '
+                          'and the value of Y lands in the spill slot of X (wrong results at -O2 and -O3 under register pressure)' %
+                          (place, res[1], res[0], first), line=f.line)
+    return n
